@@ -59,9 +59,23 @@ pub fn eval_node<F: FnMut(&GraphColoredVertices, &str)>(
     // canonical version of the current formula and canonized mappings of its domains
     let canonized_formula_with_domains = (canonized_form.clone(), canonical_domains.clone());
 
-    if eval_context
-        .duplicates
-        .contains_key(&canonized_formula_with_domains)
+    // Sets for wild-card propositions are provided by the user. They are the same everywhere, and they
+    // are kept for the whole computation.
+    let is_wild_card = matches!(node.node_type, NodeType::Terminal(Atomic::WildCardProp(_)));
+    // If some enclosing variable with a restricted domain does not occur in this sub-formula, the sub-formula
+    // is now evaluated on a graph restricted by a domain that is not part of its cache key. Such a result is
+    // only valid inside that scope (and a cached result can not be renamed there reliably), so the cache is
+    // not used for this occurrence of the sub-formula at all.
+    let restricted_by_other_var = !is_wild_card
+        && eval_context
+            .free_var_domains
+            .iter()
+            .any(|(variable, domain)| domain.is_some() && !renaming.contains_key(variable));
+
+    if !restricted_by_other_var
+        && eval_context
+            .duplicates
+            .contains_key(&canonized_formula_with_domains)
     {
         if eval_context
             .cache
@@ -82,7 +96,7 @@ pub fn eval_node<F: FnMut(&GraphColoredVertices, &str)>(
                 .clone();
 
             // if we already visited all of the duplicates, lets delete the cached value
-            if eval_context.duplicates[&canonized_formula_with_domains] == 0 {
+            if eval_context.duplicates[&canonized_formula_with_domains] == 0 && !is_wild_card {
                 eval_context
                     .duplicates
                     .remove(&canonized_formula_with_domains);
@@ -292,6 +306,8 @@ pub fn eval_node<F: FnMut(&GraphColoredVertices, &str)>(
                     // quantifiers (that were already used to restrict the graph)
                     let var_domain = compute_valid_domain_for_var(graph, domain_set, &var);
                     if var_domain.is_empty() {
+                        // the variable is no longer free, do not leave its domain behind
+                        eval_context.free_var_domains.remove(&var);
                         return match op.clone() {
                             HybridOp::Bind => graph.mk_empty_colored_vertices(),
                             HybridOp::Exists => graph.mk_empty_colored_vertices(),
